@@ -10,7 +10,7 @@ META = {
         "text": "Kernel-checked: for all event sequences of the models, every internal event after the closed mark decreases a measure and a waiting Close is never blocked (close_terminates, full, via the message-tracking invariant; group_run_terminates on the GroupRun model; termination in finitely many steps given each network call returns), calls arriving after Close get io.ErrClosedPipe / io.EOF, cancelled blocked calls can return the context error, at CloseReturn every accepted message had its Completion and no goroutine/connection of the model is live; D1 documented by a decide-checked stuck state of the unrepaired step relation. Wall-clock bounds are observed by watchdogs only (partial).",
         "design_ref": "DESIGN.md §7 C08,C07,C01,C09(Writer) and C09 — Reader / ConsumerGroup / Transport part",
     },
-    "level_note": "Trusted: Lean kernel; propext/Classical.choice/Quot.sound; the hand-written LTS models (no regenerated tie for C09: the models follow writer.go/reader.go/consumergroup.go by hand and are tied by trace acceptance of externally observed events only — internal events are existentially quantified by the oracle's state-set simulation, so an implementation whose internal order differs but whose observable behaviour is allowed is accepted); the Go runtime (WaitGroup, channels, timers) is modelled; the fakes (message-level RoundTripper, byte-level broker over net.Pipe); goroutine census by stack inspection. 'Bounded time' is a watchdog observation, not a theorem.",
+    "level_note": "Trusted: Lean kernel; propext/Classical.choice/Quot.sound; the hand-written LTS models (regenerated tie: 27 structural facts of the close protocol re-extracted by go/ast from writer.go/reader.go/consumergroup.go/transport.go on every run, Props/C09 proves they all hold and instantiates Cfg.fixed with the extracted fact; otherwise the models follow the source by hand and are tied by trace acceptance — existential over unobserved events for the Writer/Reader, deterministic over hook events for ConsumerGroup.run and Transport connections — internal events are existentially quantified by the oracle's state-set simulation, so an implementation whose internal order differs but whose observable behaviour is allowed is accepted); the Go runtime (WaitGroup, channels, timers) is modelled; the fakes (message-level RoundTripper, byte-level broker over net.Pipe); goroutine census by stack inspection. 'Bounded time' is a watchdog observation, not a theorem.",
 }
 
 MODULE = "KafkaVerif.Props.C09"
@@ -24,6 +24,16 @@ def run(ctx):
         "watchdog %s for 'returns' observations; timings are reported, not asserted" % "4 s",
     ]
     broken = []
+    ok, log = ctx.extract("closeproto", ["lean/KafkaVerif/Gen/CloseFacts.lean"])
+    if not ok:
+        broken.append({"kind": "obligation", "name": "translator go/extract closeproto", "detail": log[-1500:]})
+    else:
+        import os
+        gen = open(os.path.join(os.path.dirname(os.path.dirname(os.path.abspath(__file__))), "lean/KafkaVerif/Gen/CloseFacts.lean")).read()
+        false_facts = re.findall(r"def (\w+) : Bool := false", gen)
+        ctx.coverage["source_facts"] = {"extracted": len(re.findall(r"def \w+ : Bool := ", gen)), "false": false_facts}
+        if false_facts:
+            broken.append({"kind": "obligation", "name": "structural facts of the close protocol no longer hold in the source", "facts": false_facts})
     res = ctx.prove(MODULE)
     if not res["ok"]:
         broken.append({"kind": "obligation", "theorems": res["failed"], "detail": res["reasons"][:10]})
@@ -41,8 +51,15 @@ def run(ctx):
             if m:
                 env["VERIF_C09_ONLY"] = "%s:%s" % (m.group(1), m.group(2))
         lines, rc, err = ctx.run_driver(drv, ["all"], env=env)
+        crashed = None
         if rc != 0:
-            broken.append({"kind": "obligation", "name": "driver c09 crashed", "detail": err[-1500:]})
+            last = re.findall(r"^scenario (\w+) (\d+)$", err, re.M)
+            pan = re.search(r"^(panic: .*|fatal error: .*)$", err, re.M)
+            if last and pan:
+                # the code under test died while this scenario ran: a concrete failing schedule
+                crashed = {"op": last[-1][0], "n": last[-1][1], "why": pan.group(1)[:300]}
+            else:
+                broken.append({"kind": "obligation", "name": "driver c09 crashed", "detail": err[-1500:]})
         dis = ctx.correspond(lines, orc, "writer.go/reader.go/consumergroup.go/transport.go ↔ Model/WriterClose.lean, Model/ReaderClose.lean (observed-trace acceptance + monitor)")
         kinds = {}
         for l in lines:
@@ -59,10 +76,16 @@ def run(ctx):
     ctx.coverage["rule"] = ("Writer: 8 steered schedule families (Close while a call sits in its metadata lookup = D1 window, with/without earlier traffic, "
                             "cancel inside lookup / while waiting for a batch, use after close; sync+async) x repetitions, plus random scripts of begin/hold/release/cancel/"
                             "close/probe/pause over BatchSize 1..3, MaxAttempts 1..3, BatchTimeout 1-3ms or 1h, produce outcomes ok/temporary/permanent. "
-                            "Reader/ConsumerGroup/Transport: scenario families listed in docs/notes/C09.md; grun = ConsumerGroup.Close hook traces replayed deterministically through Model/GroupRun. distinct = distinct observed traces")
+                            "Writer of NewWriter over its own Transport against a protocol-level loopback broker (6 families: answered / failing / held produce, Close during the metadata refresh, cancel, use after close; census of broker-side connections and goroutines after the timeouts). Reader/ConsumerGroup/Transport: scenario families listed in docs/notes/C09.md; grun = ConsumerGroup.Close hook traces replayed deterministically through Model/GroupRun. distinct = distinct observed traces")
     concrete = [d for d in dis if d.get("kind") == "disagreement" and not d["holds_on_impl"]]
     others = [d for d in dis if d not in concrete]
     recorded = 0
+    if orc is not None and drv is not None and crashed:
+        scen = "%s scenario %s (seed %d, tier %s)" % (crashed["op"], crashed["n"], ctx.seed, ctx.tier)
+        recorded += ctx.violation({"kind": "trace", "input": scen, "actual": "the process died while this scenario ran: " + crashed["why"],
+                                   "expected": "Close and every call return; no panic",
+                                   "monitor": "a panic / fatal error inside the library during a Close schedule"},
+                                  True, signature="%s crashed %s" % (crashed["op"], crashed["why"][:120]))
     for d in concrete[:5]:
         sc = re.search(r"sc=(\d+)", d["op"])
         scen = "%s scenario %s (seed %d, tier %s)" % (d["op"].split(" ")[0], sc.group(1) if sc else "?", ctx.seed, ctx.tier)
